@@ -257,6 +257,7 @@ func (c *Client) Connect(ctx context.Context) error {
 
 	c.setState(ctx, Connecting)
 	if err := c.Dial(ctx); err != nil {
+		c.setState(ctx, Closed)
 		stats.RecordError(err)
 
 		return err
